@@ -41,6 +41,12 @@ const ANTILOG: [u8; 256] = [
     232, 116, 214, 244, 234, 168, 80, 88, 175,
 ];
 
+#[cfg(feature = "verif-hooks")]
+#[doc(hidden)]
+pub fn verif_tables() -> ([u8; 256], [u8; 256]) {
+    (LOG, ANTILOG)
+}
+
 /// Return a string of human readable polynomial
 ///
 /// `[0, 75, 249, 78, 6]` => "α0x4 + α75x3 + α249x2 + α78x + α6"
